@@ -294,6 +294,8 @@ def obligations(tier):
                     continue       # quick tier: every third skeleton also with 2-element lines; the thorough tier runs all
                 if q and epl == 3 and (n // 3) % 3 != 1:
                     continue       # ... and another third with 3-element lines (a line size that is not a power of two)
+                if not q and len(rows) >= 3 and epl >= 2 and (n // 3) % 2 != (epl % 2):
+                    continue       # thorough tier: the 3-row skeletons run with 1-element lines always and alternate between 2- and 3-element lines
                 tag = "%s/%s/%s/e%d" % ("-".join("%d%d%d" % (r[0], r[1], r[4]) for r in rows), "".join(map(str, wmask)), evict, epl)
                 obs.append(Ob("buffet/" + tag, "buffet", dict(rows=rows, wmask=wmask, evict=evict, epl=epl), ["cap", "cap2", "S"], ["0 <= cap", "cap <= cap2", "0 <= S"]))
                 if epl == 2 and n % 7 == 0:
@@ -315,6 +317,8 @@ def obligations(tier):
         for posmap, epl in (([0, 1, 2, 3], 1), ([7, 2, 5, 0], 1), ([0, 1, 2, 3], 2), ([2, 0, 3, 1], 3)):
             if q and epl >= 2 and len(seq) > 4:
                 continue
+            if not q and len(seq) == 7 and (epl >= 2 or posmap[0] == 7):
+                continue       # the longest sequences run once (identity embedding, 1-element lines)
             obs.append(Ob("cache/%s/p%d/e%d" % ("".join(map(str, seq)), posmap[0], epl), "cache", dict(seq=seq, posmap=posmap, epl=epl), ["cap", "cap2"],
                           ["0 <= cap", "cap <= cap2"]))
     obs.append(Ob("text/filter/1", "text", dict(what="filter", inp=[[0, 0, 0, 1, 0], [0, 1, 0, 3, 1], [1, 0, 2, 1, 0], [1, 1, 2, 4, 1]],
